@@ -1,5 +1,5 @@
 (* C04 — the cloud target size never exceeds min(max_nodes, cloud group maximum).  Theorems only. *)
-From Esc Require Import Examples proofs.ScanState.
+From Esc Require Import Examples proofs.ScanState proofs.ScanRun proofs.ScanRunTheorems.
 
 (* every SetDesiredCapacity value v of a scan satisfies desired < v <= min(max_nodes, cloud max), and every fleet
    request d satisfies 0 < d and desired + d <= that bound, where desired is the provider's cached desired size as
@@ -40,3 +40,9 @@ Definition ex_opts_max8 : opts :=
      o_soft := ns 300; o_hard := ns 900; o_cool := ns 600; o_maxage := 0; o_effect := id_empty |}.
 Example c04_ex : filter is_cloud_increase (r_calls (ex_scan ex_opts_max8 gstate0 24000)) = [CA (ASetDesired 103 8 false true)].
 Proof. vm_compute. reflexivity. Qed.
+
+(* over a whole RunOnce: the checker evaluated by the correspondence holds of every group journal the model produces
+   (group names and cloud group names pairwise distinct) *)
+Theorem c04_run_once : forall s, wf_groups s -> for_groups check_C04_group s (run_journals s) = true.
+Proof. exact run_passes_C04. Qed.
+Print Assumptions c04_run_once.
